@@ -263,7 +263,7 @@ class Composition(Bounded):
 
     def bound(self, tier):
         r = 3 if tier == "quick" else 4
-        return (f"all single-player streams on 2 columns x {r} rows x 5 cell kinds (tap, hold head, roll head, tail, mine; one head kind keysounded) "
+        return (f"all single-player streams on 2 columns x {r} rows and on 3 columns x 2 rows, 5 cell kinds (tap, hold head, roll head, tail, mine; one head kind keysounded) "
                 f"x 3 same-beat modes x join on/off x orphan policies {{keep, drop}}^2 x ungroup KEEP_ORPHAN")
 
     def run(self, tier, seed):
@@ -276,7 +276,8 @@ class Composition(Bounded):
         include = frozenset(T)
         cases, failures = 0, []
         pols = (g.OrphanedNotes.KEEP_ORPHAN, g.OrphanedNotes.DROP_ORPHAN)
-        for idx, stream in enumerate(grid_streams(2, rows, kinds)):
+        import itertools as _it
+        for idx, stream in enumerate(_it.chain(grid_streams(2, rows, kinds), grid_streams(3, 2, kinds))):
             if idx % self.PARTS != self.part:
                 continue
             for sb, join in itertools.product(g.SameBeatNotes, (False, True)):
